@@ -68,7 +68,9 @@ class budget:
 # ----------------------------------------------------------------------------
 # accumulator (one per shard, merged by the parent)
 
-MAX_VIOL_PER_SHARD = 400
+MAX_VIOL_PER_SHARD = 2000
+MAX_VIOL_PER_CLASS = 20
+_RE_COARSE = re.compile(r"[0-9]+|'[^']*'|\"[^\"]*\"|\[.*\]|\{.*\}")
 
 
 class Acc:
@@ -84,6 +86,7 @@ class Acc:
         self.viol = []
         self.raw_viol = 0
         self.info = {}
+        self._per_class = {}
 
     def case(self, sub, key, outcome=None, nontrivial=True, trans=1):
         """Record one explored case (a state of the explored space)."""
@@ -109,8 +112,13 @@ class Acc:
             s[2] = case
 
     def violation(self, sub, kind, case, expected=None, observed=None, note=None):
+        """Record a violating case.  To keep one flooding root cause from hiding the others, the cap is
+        applied per coarse class (sub-check, kind, shape of the observation), not globally."""
         self.raw_viol += 1
-        if len(self.viol) < MAX_VIOL_PER_SHARD:
+        coarse = (sub, kind, _RE_COARSE.sub("#", str(observed))[:60])
+        n = self._per_class.get(coarse, 0)
+        self._per_class[coarse] = n + 1
+        if n < MAX_VIOL_PER_CLASS and len(self.viol) < MAX_VIOL_PER_SHARD:
             self.viol.append(
                 dict(sub=sub, kind=kind, case=case, expected=expected, observed=observed, note=note)
             )
@@ -153,8 +161,22 @@ def _worker(shard):
     return out
 
 
+def _exc_class(obs):
+    """'TypeError: ...' -> 'TypeError' (observations of escaped exceptions start with the class name)."""
+    if isinstance(obs, str) and ":" in obs:
+        head = obs.split(":", 1)[0]
+        if head.replace("_", "").replace(".", "").isalnum():
+            return head
+    if isinstance(obs, (list, tuple)) and len(obs) == 2 and obs[0] == "exception":
+        return _exc_class(obs[1])
+    return None
+
+
 def _same_failure(v, ref):
-    return v is not None and v["sub"] == ref["sub"] and v["kind"] == ref["kind"]
+    """Same sub-check, same kind and - for escaped exceptions - the same exception class, so that shrinking
+    cannot slide from one root cause into another."""
+    return (v is not None and v["sub"] == ref["sub"] and v["kind"] == ref["kind"]
+            and _exc_class(v.get("observed")) == _exc_class(ref.get("observed")))
 
 
 def check_one(mod, sub, case):
